@@ -1,6 +1,7 @@
 (* C10 - a table renders the same whatever wrapper created it or is wrapped
    around it.  Only statements; proofs in Proofs/WrapProofs.v. *)
 From Tab Require Import Model.Wrap Model.Csv Proofs.WrapProofs.
+From Tab Require Model.Markdown Model.Json Model.Text Model.Decoration Model.Html.
 
 (* For every choice of renderer bodies (out / degraded), every start state and
    every history of building, wrapping (any kinds, any nesting, any creation
@@ -26,6 +27,27 @@ Theorem c10_csv : forall (U : Type) out degraded (ops : list (op U)) s,
   = csv_render (st_view (run s ops)).
 Proof. intros. rewrite render_is_out by assumption. reflexivity. Qed.
 Print Assumptions c10_csv.
+
+(* instance: ALL five concrete renderer models as the bodies (any width
+   measure W, any encoding/json oracle, any decoration, any HTML settings):
+   whatever the creation path and nesting, a render of format k is that
+   format's model applied to the current view *)
+Definition concrete_out (W : bytes -> nat) (strenc : bytes -> bytes) (d : Decoration.decoration)
+           (id cls cap : bytes) (have : bool) (rcs : list bytes) (k : kind) (v : view) : res bytes :=
+  match k with
+  | KCsv => csv_render v
+  | KHtml => Html.html_render (Html.mkHtmlIn id cls cap have rcs v)
+  | KJson => Json.json_render strenc v
+  | KMd => Markdown.md_render W v
+  | KText => Text.text_render W d v
+  end.
+
+Theorem c10_all_formats : forall W strenc d id cls cap have rcs (U : Type) degraded (ops : list (op U)) s k,
+  wrapped k ops ->
+  render (concrete_out W strenc d id cls cap have rcs) degraded (run s ops) k
+  = concrete_out W strenc d id cls cap have rcs k (st_view (run s ops)).
+Proof. intros. apply render_is_out. assumption. Qed.
+Print Assumptions c10_all_formats.
 
 (* non-vacuity: core table, wrapped as csv then text then markdown, rendered as text *)
 Example c10_example :
